@@ -672,6 +672,124 @@ Section LTSProofs.
     - destruct (hit_respond_step _ _ _ _ N P) as [s' [? [S _]]]. eauto.
   Qed.
 
+  (* ---- the whole hit path, from the lookup on, as a function of (clock, cache, question) alone ----
+     What the next action of a hit thread reads: its own record, the clock and the cache.  The refresh threads
+     (p_refs) and the in-flight set (p_inflight) decide only the ghost h_att (whether THIS hit was the one that
+     spawned); they are never a guard and never reach the pc. *)
+  Definition hit_next_pc (now : Z) (c : list (N * pentry)) (h : phit) : hpc :=
+    match h_pc h with
+    | HLookup => match p_lookup (h_q h) c with None => HMiss | Some e => HWindow e end
+    | HWindow e => if need_prefetch (pe_stored e) (pe_expire e) now then HReserve e else HRespond e
+    | HReserve e => HRespond e
+    | HRespond e => HDone e
+    | pc => pc
+    end.
+
+  Definition hit_next_tw (now : Z) (h : phit) : Z :=
+    match h_pc h with HWindow _ => now | _ => h_tw h end.
+
+  (* number of own actions from the lookup to the response *)
+  Definition hit_steps (now : Z) (e : pentry) : nat :=
+    if need_prefetch (pe_stored e) (pe_expire e) now then 4%nat else 3%nat.
+
+  (* one action of a hit thread: always enabled (unless finished), and a frame: clock, cache and the upstream
+     log are untouched, every existing refresh thread is untouched, at most one refresh thread is appended
+     (the spawn is part of the SAME atomic action as the reserve: there is no separate "start the worker"
+     step that could be disabled) *)
+  Lemma hit_step_total s i h :
+    nth_error (p_hits s) i = Some h -> (forall e, h_pc h <> HDone e) -> h_pc h <> HMiss ->
+    exists s' h', p_step s (PlHit i) = Some s' /\ nth_error (p_hits s') i = Some h' /\
+      h_q h' = h_q h /\ h_pc h' = hit_next_pc (p_now s) (p_cache s) h /\ h_tw h' = hit_next_tw (p_now s) h /\
+      p_now s' = p_now s /\ p_cache s' = p_cache s /\ p_sent s' = p_sent s /\
+      (forall j r, nth_error (p_refs s) j = Some r -> nth_error (p_refs s') j = Some r) /\
+      (length (p_refs s') <= S (length (p_refs s)))%nat.
+  Proof.
+    intros Nh D M. destruct (hit_never_blocked s i h Nh D M) as [s' S]. exists s'.
+    pose proof S as S0. cbn [Prefetch.p_step] in S0. rewrite Nh in S0. apply step_hit_inv in S0.
+    unfold hit_next_pc, hit_next_tw.
+    inversion S0 as [P L|e P L|e P W|e P W|e P K|e P K|e P]; subst; rewrite P; try rewrite L; try rewrite W;
+      eexists; (split; [exact S|]); unfold p_set_hit; cbn [p_hits p_now p_cache p_sent p_refs h_q h_pc h_tw];
+      (split; [apply (nth_upd_same _ _ _ _ Nh)|]); repeat split; auto;
+      try (intros j r Hj; apply nth_app_keep; exact Hj); try lia.
+    rewrite app_length. cbn. lia.
+  Qed.
+
+  (* From EVERY state — whatever refresh threads exist, in whatever number, and whatever the in-flight set
+     holds — a hit thread that is about to look up a present entry e runs to "responded with e" by its own
+     actions alone.  Their number and the response are functions of (clock, e) and of the cache lookup: neither
+     p_refs nor p_inflight occurs in them.  The run leaves every existing refresh thread alone and appends at
+     most one. *)
+  Theorem hit_total s i h e :
+    nth_error (p_hits s) i = Some h -> h_pc h = HLookup -> p_lookup (h_q h) (p_cache s) = Some e ->
+    exists s' h', p_run (repeat (PlHit i) (hit_steps (p_now s) e)) s = Some s' /\
+      nth_error (p_hits s') i = Some h' /\ h_pc h' = HDone e /\ h_q h' = h_q h /\ h_tw h' = p_now s /\
+      p_now s' = p_now s /\ p_cache s' = p_cache s /\ p_sent s' = p_sent s /\
+      (forall j r, nth_error (p_refs s) j = Some r -> nth_error (p_refs s') j = Some r) /\
+      (length (p_refs s') <= S (length (p_refs s)))%nat.
+  Proof.
+    intros N0 P0 L.
+    (* lookup *)
+    destruct (hit_step_total s i h N0) as [s1 [h1 [S1 [N1 [Q1 [P1 [T1 [W1 [C1 [U1 [F1 G1]]]]]]]]]]];
+      [intros ?; congruence|congruence|].
+    unfold hit_next_pc in P1. rewrite P0, L in P1.
+    (* window test *)
+    destruct (hit_step_total s1 i h1 N1) as [s2 [h2 [S2 [N2 [Q2 [P2 [T2 [W2 [C2 [U2 [F2 G2]]]]]]]]]]];
+      [intros ?; congruence|congruence|].
+    unfold hit_next_pc in P2. unfold hit_next_tw in T2. rewrite P1 in P2, T2. rewrite W1 in P2, T2.
+    assert (G1' : length (p_refs s1) = length (p_refs s)).
+    { pose proof S1 as X. cbn [Prefetch.p_step] in X. rewrite N0 in X. apply step_hit_inv in X.
+      inversion X; subst; try congruence; reflexivity. }
+    assert (G2' : length (p_refs s2) = length (p_refs s1)).
+    { pose proof S2 as X. cbn [Prefetch.p_step] in X. rewrite N1 in X. apply step_hit_inv in X.
+      inversion X; subst; try congruence; reflexivity. }
+    unfold hit_steps. destruct (need_prefetch (pe_stored e) (pe_expire e) (p_now s)) eqn:Nd.
+    - (* reserve (+ spawn), respond *)
+      destruct (hit_step_total s2 i h2 N2) as [s3 [h3 [S3 [N3 [Q3 [P3 [T3 [W3 [C3 [U3 [F3 G3]]]]]]]]]]];
+        [intros ?; congruence|congruence|].
+      unfold hit_next_pc in P3. unfold hit_next_tw in T3. rewrite P2 in P3, T3.
+      destruct (hit_step_total s3 i h3 N3) as [s4 [h4 [S4 [N4 [Q4 [P4 [T4 [W4 [C4 [U4 [F4 G4]]]]]]]]]]];
+        [intros ?; congruence|congruence|].
+      unfold hit_next_pc in P4. unfold hit_next_tw in T4. rewrite P3 in P4, T4.
+      assert (G4' : length (p_refs s4) = length (p_refs s3)).
+      { pose proof S4 as X. cbn [Prefetch.p_step] in X. rewrite N3 in X. apply step_hit_inv in X.
+        inversion X; subst; try congruence; reflexivity. }
+      exists s4, h4. cbn [repeat].
+      rewrite (run_cons _ _ _ _ S1), (run_cons _ _ _ _ S2), (run_cons _ _ _ _ S3), (run_cons _ _ _ _ S4).
+      cbn [Prefetch.p_run]. repeat split; auto; try congruence; try lia.
+    - (* respond *)
+      destruct (hit_step_total s2 i h2 N2) as [s3 [h3 [S3 [N3 [Q3 [P3 [T3 [W3 [C3 [U3 [F3 G3]]]]]]]]]]];
+        [intros ?; congruence|congruence|].
+      unfold hit_next_pc in P3. unfold hit_next_tw in T3. rewrite P2 in P3, T3.
+      assert (G3' : length (p_refs s3) = length (p_refs s2)).
+      { pose proof S3 as X. cbn [Prefetch.p_step] in X. rewrite N2 in X. apply step_hit_inv in X.
+        inversion X; subst; try congruence; reflexivity. }
+      exists s3, h3. cbn [repeat].
+      rewrite (run_cons _ _ _ _ S1), (run_cons _ _ _ _ S2), (run_cons _ _ _ _ S3).
+      cbn [Prefetch.p_run]. repeat split; auto; try congruence; try lia.
+  Qed.
+
+  (* ... hence two states that agree on the clock, the cache and this hit thread, and differ ARBITRARILY in
+     their refresh threads and in-flight sets (none in one, a thousand stalled ones in the other), give the
+     same schedule length, the same response and the same window-test instant. *)
+  Theorem hit_independent_of_refreshes s1 s2 i h e :
+    p_now s1 = p_now s2 -> p_cache s1 = p_cache s2 ->
+    nth_error (p_hits s1) i = Some h -> nth_error (p_hits s2) i = Some h ->
+    h_pc h = HLookup -> p_lookup (h_q h) (p_cache s1) = Some e ->
+    exists n s1' s2' h1 h2, (n <= 4)%nat /\
+      p_run (repeat (PlHit i) n) s1 = Some s1' /\ p_run (repeat (PlHit i) n) s2 = Some s2' /\
+      nth_error (p_hits s1') i = Some h1 /\ nth_error (p_hits s2') i = Some h2 /\
+      h_pc h1 = HDone e /\ h_pc h2 = HDone e /\ h_tw h1 = h_tw h2 /\
+      p_cache s1' = p_cache s2' /\ p_now s1' = p_now s2'.
+  Proof.
+    intros En Ec N1 N2 P L.
+    destruct (hit_total s1 i h e N1 P L) as [s1' [h1 [R1 [M1 [D1 [_ [T1 [W1 [C1 _]]]]]]]]].
+    assert (L2 : p_lookup (h_q h) (p_cache s2) = Some e) by (rewrite <- Ec; exact L).
+    destruct (hit_total s2 i h e N2 P L2) as [s2' [h2 [R2 [M2 [D2 [_ [T2 [W2 [C2 _]]]]]]]]].
+    exists (hit_steps (p_now s1) e), s1', s2', h1, h2. rewrite En in R1 |- *.
+    repeat split; auto; try congruence.
+    unfold hit_steps. destruct (need_prefetch _ _ _); lia.
+  Qed.
+
   (* the entry a hit thread carries is the one the cache held at its lookup *)
   Theorem hit_lookup_step s i h s' :
     nth_error (p_hits s) i = Some h -> h_pc h = HLookup -> p_step s (PlHit i) = Some s' ->
